@@ -153,12 +153,12 @@ func statCase(s CaseRepo, caseName string) (tCase *TestCase, asmUnique bool, lua
 		return nil, false, false, err
 	}
 
-	asmCounter := map[string]int{}
-	scriptCounter := map[string]int{}
+	// Count references to a file name regardless of the role (driver or script) it is used in
+	refCounter := map[string]int{}
 
 	statIter := func(testCaseName string, caseData *TestCase) error {
-		asmCounter[caseData.TestDriverSource] += 1
-		scriptCounter[caseData.TestScript] += 1
+		refCounter[caseData.TestDriverSource] += 1
+		refCounter[caseData.TestScript] += 1
 
 		return nil
 	}
@@ -168,7 +168,7 @@ func statCase(s CaseRepo, caseName string) (tCase *TestCase, asmUnique bool, lua
 		return nil, false, false, err
 	}
 
-	return tCase, asmCounter[tCase.TestDriverSource] == 1, scriptCounter[tCase.TestScript] == 1, nil
+	return tCase, refCounter[tCase.TestDriverSource] == 1, refCounter[tCase.TestScript] == 1, nil
 }
 
 func (s *simpleCaseRepo) IterateTestCases(iterProcessor IterProcFunc) (uint, error) {
